@@ -2,6 +2,12 @@
 # Runs the repository's pinned test suite with the verification guard OFF and compares with BASELINE.json's
 # stable_pass list. Usage: baseline.sh [repo_dir]   (default /repo). Exit 0 iff every stable test passed.
 REPO=${1:-/repo}
+# The integration tests open UDP sockets on fixed domain ids and cross-talk with anything else on this machine that runs
+# dust-dds (other checks, other test runs): run inside a private network namespace when that is possible.
+if [ -z "$BASELINE_IN_NS" ] && unshare -rn true 2>/dev/null; then
+  export BASELINE_IN_NS=1
+  exec unshare -rn sh -c "ip link set lo up; exec \"$0\" \"$REPO\""
+fi
 cd "$REPO" || exit 2
 unset RUSTFLAGS
 export CARGO_NET_OFFLINE=true
